@@ -481,6 +481,7 @@ def check_cursor_owner_moves(run, db):
 
 
 def run(run):
+    run.rule('R-BOUND.reseat', 'the stack cursor and the arena\'s current block (which supplies the block end) change together on every way out of a member function, exceptional ones included (shared rule of C06)', floor=4)
     run.rule('R-BOUND.move', 'cursor, region end and block size of the bump allocators travel together through move and swap', floor=10)
     run.rule('R-RUN', 'an array handed out by the intrusive lists covers the requested bytes: the search accounts the interval exactly (shared with C02/C04)', floor=2)
     run.rule('R-BOUND', 'cursor advance == checked amount, against the end of the same region', floor=10)
@@ -493,6 +494,8 @@ def run(run):
     run.assumptions += ['pairwise disjointness over histories, and that links written into free nodes never land in live nodes, are not decided (they need the list shape invariant)']
     for cfg in common.configs(run):
         db = build.load_db(cfg, log=run.log)
+        from rules import c06 as _c06
+        _c06.check_reseat(run, db, rule='R-BOUND.reseat')
         run.count('functions_analysed', len(db.fns))
         if check_bound(run, db) < 6:
             run.broke('cursor-moving functions not found [%s]' % cfg)
